@@ -4158,6 +4158,7 @@ def tie_notes(part):
         # keep the list of stopping slurs, we need to transfer them to the last
         # tied note
         slur_stops = cur_note.slur_stops
+        orig_tie_next = note.tie_next
 
         while next_measure and cur_note.end > next_measure.start:
             part.remove(cur_note, "end")
@@ -4202,6 +4203,10 @@ def tie_notes(part):
             next_measure = next(cur_note.start.iter_next(Measure), None)
 
         if cur_note != note:
+            # the last piece takes over the tie the original note had
+            cur_note.tie_next = orig_tie_next
+            if orig_tie_next is not None:
+                orig_tie_next.tie_prev = cur_note
             for slur in slur_stops:
                 slur.end_note = cur_note
 
